@@ -463,6 +463,38 @@ def multisig_columns(ctx):
                             'after get_keys(number_of_keys=3) the records m/.../0/0..2 all carry index 0: new_key() computes index 1, finds its address present and returns the existing key again')
 
 
+@PROP.obligation('C09.scope-forwarding', canaries=[
+    mut.replace_expr('wallets', 'Wallet.address_index', 'self.key_for_path([], address_index=address_index, account_id=account_id, cosigner_id=cosigner_id, change=change, network=network)', 'self.key_for_path([], address_index=address_index, account_id=account_id, cosigner_id=cosigner_id, change=change)', 'address_index answers from the default network'),
+    mut.replace_expr('wallets', 'Wallet.new_key', 'self.new_keys(name, account_id, change, cosigner_id, witness_type, 1, network)', 'self.new_keys(name, account_id, change, cosigner_id, witness_type, 1)', 'new_key creates on the default network'),
+])
+def scope_forwarding(ctx):
+    """A Wallet method that takes network / account_id / witness_type / change / cosigner_id and delegates to another Wallet method with a
+    parameter of that name passes it on (positional or keyword); the *_change wrappers (new_key_change, get_key_change,
+    get_keys_change) pass change=1 to the method they wrap."""
+    from .common_forward import forwarding as run
+    run(ctx, 'wallets', 'Wallet', 'the key is looked up / created on the default network, default account or payment chain instead of the requested one: wrong path and address for the request', 140)
+    m = ctx.repo.mod('wallets')
+    n = 0
+    for q, f in sorted(m.functions.items()):
+        if not (q.startswith('Wallet.') and q.endswith('_change') and q.count('.') == 1):
+            continue
+        calls = [c for c in ast.walk(f) if isinstance(c, ast.Call) and isinstance(c.func, ast.Attribute) and isinstance(c.func.value, ast.Name) and c.func.value.id == 'self'
+                 and ('Wallet.' + c.func.attr) in m.functions and 'change' in [a.arg for a in m.functions['Wallet.' + c.func.attr].args.args]]
+        if not calls:
+            ctx.unsure('wallets:%s: no delegation to a method with a change parameter' % q)
+            continue
+        for c in calls:
+            n += 1
+            g = m.functions['Wallet.' + c.func.attr]
+            gps = [a.arg for a in g.args.args][1:]
+            i = gps.index('change')
+            val = c.args[i] if i < len(c.args) else next((k.value for k in c.keywords if k.arg == 'change'), None)
+            ctx.saw('%s -> %s(change=%s)' % (q, c.func.attr, norm(val) if val is not None else 'default'))
+            ctx.require(val is not None and isinstance(val, ast.Constant) and val.value == 1, 'wallets:' + q, 'the change wrapper calls `%s` with change=%s' % (norm(c)[:90], norm(val) if val is not None else 'the default 0'), c,
+                        'keys handed out as change keys lie on the payment chain m/.../0/i: the same addresses get_key() hands out for receiving')
+    ctx.floor(n, 3, 'change wrappers')
+
+
 COLS = {'wallet_id': 'wallet_id', 'purpose': 'purpose', 'account_id': 'account_id', 'change': 'change', 'parent_id': 'parent_id', 'path': 'path', 'key_type': 'key_type',
         'network_name': 'network', 'encoding': 'encoding', 'cosigner_id': 'cosigner_id', 'witness_type': 'witness_type', 'depth': 'k.depth', 'address': 'address',
         'address_index': 'address_index', 'public': 'k.public_byte', 'private': 'k.private_byte', 'compressed': 'k.compressed', 'is_private': 'k.is_private',
